@@ -3,6 +3,29 @@
 import glob, json, os
 V = os.path.dirname(os.path.dirname(os.path.abspath(__file__)))
 STRENGTHENED = {
+    "C01-m11": "round 8: missed at first; variables / components before and after the reference in the reference graphs",
+    "C01-m12": "round 8: only a broken correspondence at first; number / boolean literal keys judged against their source text",
+    "C03-m12": "round 8: missed at first; compile-only probe in the `dynamic_load`+`ssr` feature set",
+    "C04-m12": "round 8: missed at first; implicit fallback of the map syntax added to the fallback-position corpus",
+    "C05-m11": "round 8: missed at first; `t_plural!` accessors created under another locale, then called",
+    "C05-m12": "round 8: missed at first; pt / pt-PT in the plural-fallback family",
+    "C06-m11": "round 8: missed at first; namespace-qualifier corpus",
+    "C07-m12": "round 8: missed at first; every inherits shape through C07's oracle, `inherits` read from the manifest as written",
+    "C09-m11": "round 8: missed at first; ranges with n branches around every multiple of 15",
+    "C10-m12": "round 8: missed at first; fallbacks inside count lists through the three formats",
+    "C12-m11": "round 8: missed by C12 at first (caught by C15); negotiation through contexts added to C12",
+    "C12-m12": "round 8: same as C12-m11",
+    "C16-m11": "round 8: a harness error of the self-test at first; now a violation",
+    "C16-m12": "round 8: missed at first; `t_format` closure and memo kinds",
+    "C17-m11": "round 8: missed at first; td_string! accesses leave the context on another locale",
+    "C18-m11": "round 8: missed at first; compiled probe crate with formatted keys null / absent in some locales",
+    "C19-m11": "round 8: missed at first; CRLF manifests",
+    "C19-m12": "round 8: missed at first; files present only under another format's extension",
+    "C20-m12": "round 8: missed at first; several locales of one language, identifiers handed to the datagen driver",
+    "C02-m4": "re-run after round 7: had been caught by luck; probe groups are now sampled by priority (formatted keys first)",
+    "C04-m5": "re-run after round 7: only a broken correspondence; negative integer counts of float ranges in every run",
+    "C04-m7": "re-run after round 7: had been caught by luck; exact float values of small magnitude in every probe project",
+    "C09-m9": "re-run after round 7: had been caught by luck; multibyte reference arguments in C09's corpus",
     "C02-m9": "round 6: missed at first; `t!` / `tu!` view flavours through a context added, also built before the context's locale is set and rendered after",
     "C02-m10": "round 6: missed at first; plural keys only the default locale translates (one match arm for all locales) in every probe project",
     "C06-m10": "round 6: only a broken correspondence at first; negative / decimal literal counts for plural targets (and the oracle's category table repaired, DESIGN \u00a710.7)",
